@@ -262,6 +262,124 @@ pub fn adf_many_models(nlo: usize, nhi: usize) -> BoxedStrategy<Vec<F>> {
         .boxed()
 }
 
+
+/// Wide ADFs (dozens to hundreds of statements) with a small cyclic core: `k` core statements with arbitrary conditions over
+/// the core, a long part decided by grounding (facts and statements computed from earlier decided ones), and up to `hang`
+/// statements computed from the core (undecided in the grounded interpretation). `place` moves the core to the front, the
+/// end or the middle of the declaration order. Exact oracle: `oracle::stable_sparse`.
+pub fn adf_stratified(nlo: usize, nhi: usize, hang: usize) -> BoxedStrategy<Vec<F>> {
+    (nlo..=nhi, 2usize..=4, 0u8..3)
+        .prop_flat_map(move |(n, k, place)| {
+            (
+                Just((n, k, place)),
+                vec(prop_oneof![3 => formula(k, 2), 1 => formula(2, 1)], k),
+                vec((0u8..8, any::<u16>(), any::<u16>()), n - k),
+                0..=hang,
+            )
+        })
+        .prop_map(|((n, k, place), core, spec, hang)| {
+            let mut acs: Vec<F> = core;
+            // lineage[i]: does statement i (transitively) depend on the core?
+            let mut lineage = vec![true; k];
+            let mut hung = 0usize;
+            for (idx, (kind, a, b)) in spec.into_iter().enumerate() {
+                let i = k + idx;
+                // the statements after the core: every (n / (hang+1))-th one hangs off the core until `hang` is used up
+                let off_core = hung < hang && idx % ((n - k) / (hang + 1)).max(1) == 0;
+                // dependencies stay local (the last few statements of the same lineage): the single-formula rewritings
+                // conjoin all conditions in one diagram, whose size is exponential in the number of dependencies that
+                // cross a cut of the variable order
+                let mut pool: Vec<usize> = (0..i).filter(|&j| lineage[j] == off_core).collect();
+                if pool.len() > 5 {
+                    pool.drain(..pool.len() - 5);
+                }
+                let f = if pool.is_empty() {
+                    if a % 2 == 0 { F::Top } else { F::Bot }
+                } else {
+                    let x = F::Atom(pool[pick(a, pool.len())]);
+                    let y = F::Atom(pool[pick(b, pool.len())]);
+                    match kind {
+                        0 if !off_core => F::Top,
+                        1 if !off_core => F::Bot,
+                        0 | 1 | 2 => x,
+                        3 => F::not(x),
+                        4 => F::and(x, y),
+                        5 => F::or(x, F::not(y)),
+                        6 => F::xor(x, y),
+                        _ => F::imp(x, y),
+                    }
+                };
+                let l = off_core && !pool.is_empty();
+                if l {
+                    hung += 1;
+                }
+                lineage.push(l);
+                acs.push(f);
+            }
+            // move the core: new index of statement i
+            let perm: Vec<usize> = match place {
+                0 => (0..n).collect(),
+                1 => (0..n).map(|i| n - 1 - i).collect(),
+                _ => (0..n).map(|i| (i + n / 2) % n).collect(),
+            };
+            let mut out = vec![F::Top; n];
+            for (i, f) in acs.into_iter().enumerate() {
+                out[perm[i]] = f.map_atoms(&|a| perm[a]);
+            }
+            out
+        })
+        .boxed()
+}
+
+/// Wide ADFs for the nogood learner: a small cyclic core and LONG chains hanging off it (most statements stay undecided
+/// in the grounded interpretation, every two-valued model is determined by the core).
+pub fn adf_core_chains(nlo: usize, nhi: usize) -> BoxedStrategy<Vec<F>> {
+    (nlo..=nhi, 2usize..=3, 0u8..3)
+        .prop_flat_map(|(n, k, place)| (Just((n, k, place)), vec(prop_oneof![2 => formula(k, 2), 1 => formula(2, 1)], k), vec((0u8..6, any::<u16>()), n - k), 0u8..6))
+        .prop_map(|((n, k, place), core, mut spec, parity)| {
+            // a third of the cases: the last statement is the parity (or a conjunction / disjunction) of ALL others, each
+            // occurring once: a condition with 2^(n-1) paths whose value is only known when everything is decided
+            let wide_last = parity < 3 && n - k >= 2;
+            if wide_last {
+                spec.pop();
+            }
+            let mut acs: Vec<F> = core;
+            for (idx, (kind, a)) in spec.into_iter().enumerate() {
+                let i = k + idx;
+                let prev = F::Atom(i - 1);
+                let other = F::Atom(pick(a, i));
+                acs.push(match kind {
+                    0 | 1 | 2 => prev,
+                    3 => F::not(prev),
+                    4 => F::and(prev.clone(), F::or(other.clone(), F::not(other))),
+                    _ => F::or(prev.clone(), F::and(other.clone(), F::not(other))),
+                });
+            }
+            if wide_last {
+                let mut acc = F::Atom(0);
+                for j in 1..n - 1 {
+                    acc = match parity {
+                        0 => F::xor(F::Atom(j), acc),
+                        1 => F::iff(acc, F::Atom(j)),
+                        _ => if j % 2 == 0 { F::xor(acc, F::Atom(j)) } else { F::iff(F::Atom(j), acc) },
+                    };
+                }
+                acs.push(acc);
+            }
+            let perm: Vec<usize> = match place {
+                0 => (0..n).collect(),
+                1 => (0..n).map(|i| n - 1 - i).collect(),
+                _ => (0..n).map(|i| (i + n / 2) % n).collect(),
+            };
+            let mut out = vec![F::Top; n];
+            for (i, f) in acs.into_iter().enumerate() {
+                out[perm[i]] = f.map_atoms(&|a| perm[a]);
+            }
+            out
+        })
+        .boxed()
+}
+
 // ------------------------------------------------------------------------------------------
 // labels
 
@@ -283,7 +401,7 @@ const PLAIN: &[&str] = &[
 const NUMERIC: &[&str] = &["0", "1", "2", "10", "02", "007", "9", "11", "100", "20"];
 const KEYWORDISH: &[&str] = &[
     "and", "or", "neg", "imp", "iff", "xor", "c", "s", "ac", "andy", "or1", "negx", "impl", "iffy",
-    "xorx", "cv", "cf", "v", "f", "sa", "acx", "true", "false",
+    "xorx", "cv", "cf", "v", "f", "sa", "acx", "true", "false", "TOP", "BOT", "T", "F", "u",
 ];
 const QUOTED: &[&str] = &[
     "x y", " sp ", "q.r,s", "ünï", "a_b", "", "näme one", "semi;colon", "tab\there", "1 2",
